@@ -42,9 +42,10 @@ CLAIMED = {
         'the failed proof attempt, exposed a real defect that was then repaired). Array-level rules (every commutative ring, all sizes): the '
         'reverse rules of dot, outer, inv, solve, trace, transpose, det and logdet as coded are the transposes, for the pairing tr(A^T B), of the '
         'differentials, and the differentials are justified by first-order expansions with a nilpotent scalar, including Jacobi\'s formula '
-        'det(A + eps V) = det A + eps tr(adj(A) V); the executable rules over series of list matrices are their Cauchy products. On every run: the adjoint identity on the implementation for '
+        'det(A + eps V) = det A + eps tr(adj(A) V); the executable rules over series of list matrices are their Cauchy products; the reverse rules of '
+        'lu, cholesky, qr (square) and eigh (distinct eigenvalues) are the adjoints for all tangent tuples satisfying the linearised defining equations. On every run: the adjoint identity on the implementation for '
         'generated programs (F\'v from forward propagation alone, evaluation point != recording point, D<=4, P<=3, all orders), every xbar '
-        'coefficient of rational scalar programs with buffers against the Coq model, UTPM.pb_dot / pb_inv / pb_solve called directly against the '
+        'coefficient of rational scalar programs with buffers against the Coq model, UTPM.pb_dot / pb_inv / pb_solve / pb_lu / pb_cholesky / pb_qr called directly against the '
         'executable rules (exact over Qc), and documented unsupported operations raising.',
    note=NOTE_COMMON + 'The array-level rules are proved one by one (dot, outer, inv, solve, trace, transpose, det, logdet), not as part of the tape theorem; the pullbacks of the factorizations (qr, cholesky, lu, eigh, svd, eig), reshape, sum and fft are covered by the adjoint-identity predicate only.',
    technique='Coq proof (potential-function invariant over the tape with heaps) + adjoint-identity predicate on the implementation + model correspondence',
